@@ -559,11 +559,43 @@ def extract_array_function(repo):
     return steps
 
 
+def _outer_order(body):
+    """operand-order bookkeeping of the `outer` branch of __array_ufunc__ (after `method = "__call__"`):
+         cum_ndim = 0 ; inputs_transformed = []
+         for inp in [reversed(]inputs[)]:
+             inputs_transformed.append(inp[(Ellipsis,) + (None,) * cum_ndim]) ; cum_ndim += inp.ndim   (either order)
+         inputs = tuple([reversed(]inputs_transformed[)])
+       -> (loop_reversed, reversed_back, cum_after_append).  Anything else: ShapeError."""
+    src = [ast.unparse(b) for b in body]
+    if len(body) != 4 or src[0] != "cum_ndim = 0" or src[1] != "inputs_transformed = []" or not isinstance(body[2], ast.For):
+        raise ShapeError("outer branch of __array_ufunc__ changed: " + " ; ".join(src)[:200])
+    loop = body[2]
+    it = ast.unparse(loop.iter)
+    if ast.unparse(loop.target) != "inp" or it not in ("reversed(inputs)", "inputs") or loop.orelse:
+        raise ShapeError("outer loop header changed: " + it)
+    lb = [ast.unparse(b) for b in loop.body]
+    app = "inputs_transformed.append(inp[(Ellipsis,) + (None,) * cum_ndim])"
+    inc = "cum_ndim += inp.ndim"
+    if lb == [app, inc]:
+        cum_after = True
+    elif lb == [inc, app]:
+        cum_after = False
+    else:
+        raise ShapeError("outer loop body changed: " + " ; ".join(lb)[:200])
+    if src[3] == "inputs = tuple(reversed(inputs_transformed))":
+        back = True
+    elif src[3] in ("inputs = tuple(inputs_transformed)", "inputs = inputs_transformed"):
+        back = False
+    else:
+        raise ShapeError("outer branch: final assignment changed: " + src[3])
+    return (it == "reversed(inputs)", back, cum_after)
+
+
 def extract_array_ufunc(repo):
     fn = _sparse_array_fn(repo, "__array_ufunc__")
     if _calls_densifier(fn):
         raise ShapeError(f"__array_ufunc__ calls a densifier: {_calls_densifier(fn)}")
-    facts = {"out_guard": False, "gufunc_to_function": False, "outer_rewrite": None, "branches": [],
+    facts = {"out_guard": False, "gufunc_to_function": False, "outer_rewrite": None, "outer_order": None, "branches": [],
              "default_notimplemented": False}
     seen_dispatch = False
     order = []
@@ -593,6 +625,7 @@ def extract_array_ufunc(repo):
                 if not first.startswith("method = '"):
                     raise ShapeError("outer rewrite changed")
                 facts["outer_rewrite"] = st.body[0].value.value
+                facts["outer_order"] = _outer_order(st.body[1:])
                 order.append("outer")
                 continue
             if t.startswith("method == '") and not seen_dispatch:
@@ -989,7 +1022,9 @@ def generate(repo):
     au = T["au"]
     A("Definition au_facts : au_table := mkAu " + cbool(au["out_guard"]) + " " + cbool(au["gufunc_to_function"]) + " " +
       ("None" if au["outer_rewrite"] is None else f"(Some {q(au['outer_rewrite'])})") + " [" +
-      "; ".join(f"({q(m)}, {a})" for m, a in au["branches"]) + "] " + cbool(au["default_notimplemented"]) + ".")
+      "; ".join(f"({q(m)}, {a})" for m, a in au["branches"]) + "] " + cbool(au["default_notimplemented"]) + " " +
+      ("None" if au["outer_order"] is None else
+       "(Some (mkOuter " + " ".join(cbool(b) for b in au["outer_order"]) + "))") + ".")
     A(f"Definition array_guard : bool := {cbool(T['array_guard'])}.")
     A(f"Definition array_namespace_module : string := {q(T['array_namespace'])}.")
     A("")
